@@ -690,6 +690,17 @@ class Project:
             if l[0] == "const" and r[0] == "const":
                 same = l[1] is r[1] or (l[1] is None and r[1] is None)
                 return ("const", same if isinstance(expr.ops[0], ast.Is) else not same)
+        # value-preserving coercions of a parameter: float(p), np.float64(p), np.asarray(p), np.array(p[, dtype=float]);
+        # int(p) only for parameters that are counts by name (an int() of anything else changes the value)
+        if isinstance(expr, ast.Call) and len(expr.args) == 1 and all(k.arg in ("dtype", "copy") for k in expr.keywords):
+            fn = expr.func
+            nm = fn.id if isinstance(fn, ast.Name) else (fn.attr if isinstance(fn, ast.Attribute) and isinstance(fn.value, ast.Name) and fn.value.id in ("np", "numpy") else None)
+            inner = self._ctor_bind(expr.args[0], env) if nm in ("float", "float64", "asarray", "array", "double", "int") else None
+            if inner is not None and inner[0] in ("param", "const"):
+                if nm != "int":
+                    return inner if inner[0] == "param" or isinstance(inner[1], (int, float, Fraction)) else inner
+                if inner[0] == "param" and inner[1] in ("ncell", "nx", "ny", "neq", "nratioa", "nratiob", "nelem"):
+                    return inner
         try:
             return ("const", const_eval(expr, {}))
         except AnalysisError:
